@@ -1,7 +1,8 @@
 From Coq Require Import ZArith List Bool PrimFloat SpecFloat FloatOps.
-From OPF Require Import Base.Lists Base.TotalOrder Model.Heap Model.Sup.
-From OPF Require Import Proofs.OrderEmbed Proofs.LiftSup Proofs.WeakOrder Proofs.FloatOrder Proofs.FloatRank
-  Proofs.FitExample Proofs.FloatRankExample.
+From OPF Require Import Base.Lists Base.TotalOrder Model.Heap Model.Sup Spec.Paths.
+From Coq Require Import Permutation.
+From OPF Require Import Proofs.FitBase Proofs.OrderEmbed Proofs.LiftSup Proofs.WeakOrder Proofs.LiftSupWeak Proofs.FloatOrder
+  Proofs.FloatRank Proofs.FitExample Proofs.FloatRankExample.
 Import ListNotations.
 
 (* The order that the implementation's comparisons put on its weights.
@@ -27,6 +28,11 @@ Import ListNotations.
         the floats lack because of the two zeros, is used by Proofs/OrderEmbed.rk_ltb through
         [so_trichotomy] only to conclude  rk a = rk b  from incomparability - for a weak order that
         follows from "incomparable elements have the same elements below them").
+
+     5. C01 itself: for a strict weak order on the occurring weights (zero <= w p q < top, a prototype
+        exists) the trained table is an optimum-path forest - the statement of C01_sup_fit_anyorder with
+        the equalities between costs read up to "neither below the other" ([eqv]; on floats: ==);
+        instance: binary64 weights without NaN, zero = 0.0, top = FLOAT_MAX, under PrimFloat.ltb.
 
    Print Assumptions: the primitive type and operations, and FloatAxioms.ltb_spec, eqb_spec,
    SF2Prim_Prim2SF (injectivity of the decoding), Prim2SF_valid (only where [fenc] occurs). *)
@@ -269,6 +275,92 @@ Theorem C01_float_nf :
   (forall a : nfloat, nf (nfval a) = a).
 Proof. exact (conj nf_val (conj nf_ltb nf_nfval)). Qed.
 
+(* ---------- 5. C01 itself, for a strict weak order and for the floats ---------- *)
+
+(* C01_sup_fit_anyorder with every equality between COSTS weakened to
+   eqv ltb a b := ltb a b = false /\ ltb b a = false  ("==" on floats: C01_float_eqv_is_eqb);
+   everything else - permutation, predecessors, labels, root paths, order - as in C01 *)
+Theorem C01_sup_fit_weak_order :
+  forall (W : Type) (P : W -> Prop) (ltb : W -> W -> bool),
+    strict_weak_order_on P ltb ->
+    forall (zero top : W) (labels : list nat) (w : nat -> nat -> W),
+    let n := length labels in
+    let vals := zero :: top :: weight_vals n w in
+    let fp := find_prototypes ltb top n w (nodes_init zero labels) in
+    let isproto q := nth q (n_status fp) false = true in
+    Forall P vals ->
+    ltb zero top = true ->
+    (forall p q, (p < n)%nat -> (q < n)%nat -> p <> q ->
+       ltb (w p q) zero = false /\ ltb (w p q) top = true) ->
+    (exists s, (s < n)%nat /\ isproto s) ->
+    let nd := sup_fit ltb zero top labels w in
+    let cost q := nth q (n_cost nd) zero in
+    let pred q := nth q (n_pred nd) None in
+    let plabel q := nth q (n_plabel nd) 0%nat in
+    (Permutation (n_order nd) (seq 0 n) /\
+     (forall i j, (i < j)%nat -> (j < n)%nat ->
+        ltb (cost (nth j (n_order nd) 0%nat)) (cost (nth i (n_order nd) 0%nat)) = false) /\
+     (forall q, (q < n)%nat -> isproto q ->
+        pred q = None /\ eqv ltb (cost q) zero /\ plabel q = nth q labels 0%nat) /\
+     (forall q, (q < n)%nat -> ~ isproto q ->
+        exists p, pred q = Some p /\ (p < n)%nat /\ p <> q /\
+          eqv ltb (cost q) (wmax ltb (cost p) (w p q)) /\ plabel q = plabel p /\ before (n_order nd) p q) /\
+     (forall q, (q < n)%nat ->
+        exists r k, (r < n)%nat /\ isproto r /\ reaches pred q r k /\ pred r = None /\
+          (k < n)%nat /\ plabel q = nth r labels 0%nat) /\
+     (forall q s pi, (q < n)%nat -> (s < n)%nat -> isproto s -> path_from_to n s q pi ->
+        ltb (pathmaxW ltb w zero pi) (cost q) = false) /\
+     (forall q, (q < n)%nat -> exists s pi, (s < n)%nat /\ isproto s /\ path_from_to n s q pi /\
+        eqv ltb (pathmaxW ltb w zero pi) (cost q))) /\
+    n_status nd = n_status fp /\ n_label nd = labels.
+Proof. exact (@sup_fit_weak_order). Qed.
+
+(* the implementation's setting: binary64 weights, zero = 0.0, top = FLOAT_MAX, comparisons of Python floats *)
+Theorem C01_sup_fit_float_optimum_path_forest :
+  forall (zero top : float) (labels : list nat) (w : nat -> nat -> float),
+    let n := length labels in
+    let vals := zero :: top :: weight_vals n w in
+    let fp := find_prototypes PrimFloat.ltb top n w (nodes_init zero labels) in
+    let isproto q := nth q (n_status fp) false = true in
+    Forall (fun x => is_nan x = false) vals ->
+    PrimFloat.ltb zero top = true ->
+    (forall p q, (p < n)%nat -> (q < n)%nat -> p <> q ->
+       PrimFloat.ltb (w p q) zero = false /\ PrimFloat.ltb (w p q) top = true) ->
+    (exists s, (s < n)%nat /\ isproto s) ->
+    let nd := sup_fit PrimFloat.ltb zero top labels w in
+    let cost q := nth q (n_cost nd) zero in
+    let pred q := nth q (n_pred nd) None in
+    let plabel q := nth q (n_plabel nd) 0%nat in
+    (Permutation (n_order nd) (seq 0 n) /\
+     (forall i j, (i < j)%nat -> (j < n)%nat ->
+        PrimFloat.ltb (cost (nth j (n_order nd) 0%nat)) (cost (nth i (n_order nd) 0%nat)) = false) /\
+     (forall q, (q < n)%nat -> isproto q ->
+        pred q = None /\ eqv PrimFloat.ltb (cost q) zero /\ plabel q = nth q labels 0%nat) /\
+     (forall q, (q < n)%nat -> ~ isproto q ->
+        exists p, pred q = Some p /\ (p < n)%nat /\ p <> q /\
+          eqv PrimFloat.ltb (cost q) (wmax PrimFloat.ltb (cost p) (w p q)) /\
+          plabel q = plabel p /\ before (n_order nd) p q) /\
+     (forall q, (q < n)%nat ->
+        exists r k, (r < n)%nat /\ isproto r /\ reaches pred q r k /\ pred r = None /\
+          (k < n)%nat /\ plabel q = nth r labels 0%nat) /\
+     (forall q s pi, (q < n)%nat -> (s < n)%nat -> isproto s -> path_from_to n s q pi ->
+        PrimFloat.ltb (pathmaxW PrimFloat.ltb w zero pi) (cost q) = false) /\
+     (forall q, (q < n)%nat -> exists s pi, (s < n)%nat /\ isproto s /\ path_from_to n s q pi /\
+        eqv PrimFloat.ltb (pathmaxW PrimFloat.ltb w zero pi) (cost q))) /\
+    n_status nd = n_status fp /\ n_label nd = labels.
+Proof. exact sup_fit_float_opf. Qed.
+
+Theorem C01_float_eqv_is_eqb :
+  forall a b : float, is_nan a = false -> is_nan b = false ->
+    (eqv PrimFloat.ltb a b <-> PrimFloat.eqb a b = true).
+Proof. exact eqv_float_eqb. Qed.
+
+(* on a strict total order eqv is Leibniz equality: C01_sup_fit_weak_order gives back C01_sup_fit_anyorder *)
+Theorem C01_eqv_total_order :
+  forall (W : Type) (ltb : W -> W -> bool),
+    strict_total_order ltb -> forall a b : W, eqv ltb a b <-> a = b.
+Proof. exact (@eqv_total). Qed.
+
 (* ---------- non-vacuity: five samples, weights with ties, both zeros, top = FLOAT_MAX ---------- *)
 
 Theorem C01_float_example_premises :
@@ -276,6 +368,15 @@ Theorem C01_float_example_premises :
   In (-0)%float exfl_vals /\ In 0%float exfl_vals /\ (-0)%float <> 0%float /\
   PrimFloat.eqb (-0) 0 = true /\ PrimFloat.ltb (-0) 0 = false /\ PrimFloat.ltb 0 (-0) = false.
 Proof. exact (conj exfl_vals_nn exfl_both_zeros). Qed.
+
+Theorem C01_float_example_opf_premises :
+  PrimFloat.ltb 0 fmax = true /\
+  (forall p q, (p < length ex_labels)%nat -> (q < length ex_labels)%nat -> p <> q ->
+     PrimFloat.ltb (exfl_w p q) 0 = false /\ PrimFloat.ltb (exfl_w p q) fmax = true) /\
+  (exists s, (s < length ex_labels)%nat /\
+     nth s (n_status (find_prototypes PrimFloat.ltb fmax (length ex_labels) exfl_w
+                        (nodes_init 0%float ex_labels))) false = true).
+Proof. exact exfl_opf_premises. Qed.
 
 Theorem C01_float_example_result :
   sup_fit PrimFloat.ltb 0%float fmax ex_labels exfl_w =
